@@ -1206,8 +1206,8 @@ def _worklists_terminate(ctx, rep, tier):
                                 if re.search(r"%s\[%s\] = " % (re.escape(seen), re.escape(hp)), ast.unparse(model.functions[hq])):
                                     adds = True
                 rep.check(adds, "C18.s", q, f"{W}.{gcall.func.attr}({E}) under a test against `{seen}`, which records it", f"`{E}` is tested against `{seen}` but never recorded there: it is queued again every time it is met", line=gcall.lineno)
-    if n < 3:
-        raise AnalysisError(f"C18.s: only {n} worklist growth sites found (floor 3)")
+    if n < 2:
+        raise AnalysisError(f"C18.s: only {n} worklist growth sites found (floor 2: subset construction, case merge)")
 
 
 _run9 = run
